@@ -110,8 +110,10 @@ def run(ctx, report):
     sites = {}
     for cc in countries:
         fields = country_fields(reg, cc)
-        for comp in GUARDED:
-            if comp not in fields:
+        for comp in sorted(fields):
+            if comp == "national_checksum_digits":
+                continue   # computed by the library where an algorithm exists
+            if comp not in GUARDED and ctx.tier == "quick" and not reg.countries[cc].get(f"default_{comp}") and comp not in ("currency_code", "account_type"):
                 continue
             a, b, cls_letters = fields[comp]
             w = b - a
@@ -252,13 +254,32 @@ def _iban_table_iterated(prog, eff):
         if f.module.name == "schwifty.registry":
             continue
         names = set()
-        for n in eff.own_nodes(f):
-            if isinstance(n, ast.Assign) and isinstance(n.value, ast.Call):
-                d = prog.resolve_expr(f.module, n.value.func) if isinstance(n.value.func, (ast.Name, ast.Attribute)) else None
-                if isinstance(d, Func) and d.qualname == "schwifty.registry.get" and n.value.args and isinstance(n.value.args[0], ast.Constant) and n.value.args[0].value == "iban":
-                    for t in n.targets:
-                        if isinstance(t, ast.Name):
-                            names.add(t.id)
+
+        def reads_iban_table(expr):
+            for x in ast.walk(expr):
+                if isinstance(x, ast.Call):
+                    d = prog.resolve_expr(f.module, x.func) if isinstance(x.func, (ast.Name, ast.Attribute)) else None
+                    if isinstance(d, Func) and d.qualname == "schwifty.registry.get" and x.args and isinstance(x.args[0], ast.Constant) \
+                            and x.args[0].value == "iban":
+                        return True
+            return False
+
+        changed = True
+        while changed:
+            changed = False
+            for n in eff.own_nodes(f):
+                if isinstance(n, (ast.Assign, ast.AnnAssign, ast.NamedExpr)) and getattr(n, "value", None) is not None:
+                    v = n.value
+                    # the table itself (also through a conditional expression / cast), not one country's entry
+                    if isinstance(v, ast.Subscript):
+                        continue
+                    src = reads_iban_table(v) or any(isinstance(x, ast.Name) and x.id in names for x in ast.walk(v) if not isinstance(v, ast.Subscript))
+                    if src and not any(isinstance(x, ast.Subscript) for x in ast.walk(v)):
+                        targets = n.targets if isinstance(n, ast.Assign) else [n.target]
+                        for t in targets:
+                            if isinstance(t, ast.Name) and t.id not in names:
+                                names.add(t.id)
+                                changed = True
         for n in eff.own_nodes(f):
             its = []
             if isinstance(n, ast.For):
@@ -270,8 +291,12 @@ def _iban_table_iterated(prog, eff):
             for e in its:
                 root = e
                 while isinstance(root, (ast.Call, ast.Attribute)):
+                    if isinstance(root, ast.Call) and reads_iban_table(root) and not isinstance(root.func, ast.Attribute):
+                        return True
                     root = root.func if isinstance(root, ast.Call) else root.value
                 if isinstance(root, ast.Name) and root.id in names:
+                    return True
+                if reads_iban_table(e) and not any(isinstance(x, ast.Subscript) for x in ast.walk(e)):
                     return True
     return False
 
